@@ -234,6 +234,91 @@ fn gen_layout(rng: &mut impl Rng, local_dc: u8, local_pos: u8, max_dc: u8, max_n
     l
 }
 
+/// One real node (public API only) alone in its cluster: whatever the level, a selection must not
+/// contain the node itself, and levels that need another node must report too few.
+fn execute_real_node(r: &Value) -> Outcome {
+    use std::cell::RefCell;
+    use std::rc::Rc;
+    let mut out = Outcome::default();
+    let listen_unspecified = r["listen_unspecified"].as_bool().unwrap_or(true);
+    let dc = r["dc"].as_str().unwrap_or("dc0").to_string();
+    let levels: Vec<String> = r["levels"].as_array().map(|a| a.iter().filter_map(|x| x.as_str().map(|s| s.to_string())).collect()).unwrap_or_default();
+    let net_seed = r["net_seed"].as_u64().unwrap_or(1);
+    datacake_crdt::verif::seed_rng(Some(net_seed | 1));
+    let results: Rc<RefCell<Vec<(String, Result<Vec<SocketAddr>, String>, SocketAddr)>>> = Rc::new(RefCell::new(Vec::new()));
+    let mut sim = turmoil::Builder::new()
+        .simulation_duration(Duration::from_secs(600))
+        .tick_duration(Duration::from_millis(1))
+        .build_with_rng(Box::new(<rand::rngs::SmallRng as rand::SeedableRng>::seed_from_u64(net_seed)));
+    {
+        let (results, levels, dc) = (results.clone(), levels.clone(), dc.clone());
+        sim.client("solo", async move {
+            let ip = turmoil::lookup("solo");
+            let public: SocketAddr = (ip, 9000).into();
+            let listen: SocketAddr = if listen_unspecified { (IpAddr::from([0, 0, 0, 0]), 9000).into() } else { public };
+            let node = datacake_node::DatacakeNodeBuilder::<DCAwareSelector>::new(1, datacake_node::ConnectionConfig::new(listen, public, Vec::<String>::new()))
+                .with_data_center(dc)
+                .connect()
+                .await
+                .map_err(|e| format!("connect: {e}"))?;
+            tokio::time::sleep(Duration::from_millis(1_500)).await;
+            let handle = node.handle();
+            for l in &levels {
+                let res = handle.select_nodes(level_of(l).unwrap_or(Consistency::None)).await.map(|n| n.to_vec()).map_err(|e| e.to_string());
+                results.borrow_mut().push((l.clone(), res, public));
+                tokio::time::sleep(Duration::from_millis(700)).await;
+            }
+            Ok(())
+        });
+    }
+    let run = std::panic::catch_unwind(std::panic::AssertUnwindSafe(|| sim.run()));
+    drop(sim);
+    datacake_crdt::verif::seed_rng(None);
+    for (loc, msg) in take_panics() {
+        if loc.starts_with("/repo/") {
+            out.violate(format!("C15/panic@{}", loc.trim_start_matches("/repo/")), format!("{loc}: {msg}"));
+        } else {
+            out.anomalies.push(format!("{loc}: {msg}"));
+        }
+    }
+    if let Ok(Err(e)) = &run {
+        out.anomalies.push(format!("simulation ended with: {e}"));
+    }
+    let mut tr = Fnv::new();
+    for (l, res, public) in results.borrow().iter() {
+        tr.str(l);
+        let needs_other = matches!(l.as_str(), "One" | "Two" | "Three");
+        match res {
+            Ok(nodes) => {
+                tr.u64(nodes.len() as u64);
+                if nodes.contains(public) {
+                    out.violate("C15/real-node/local-node-selected", format!("a node alone in its cluster (listen address {}, advertised {public}) selected itself for level {l}: {:?}", if listen_unspecified { "0.0.0.0:9000" } else { "= advertised" }, nodes));
+                } else if needs_other {
+                    out.violate("C15/real-node/selection-succeeds-without-enough-nodes", format!("level {l} on a node alone in its cluster returned {:?}", nodes));
+                } else if !nodes.is_empty() {
+                    out.violate("C15/real-node/unknown-node-selected", format!("level {l} on a node alone in its cluster returned {:?}", nodes));
+                }
+            },
+            Err(e) => {
+                tr.str("err");
+                if !needs_other {
+                    out.violate("C15/real-node/spurious-not-enough-nodes", format!("level {l} on a node alone in its cluster failed: {e}"));
+                }
+            },
+        }
+    }
+    out.probe("real_node_arm_case");
+    if listen_unspecified {
+        out.fault("listen_address_differs_from_advertised_address");
+    }
+    out.nontrivial = !results.borrow().is_empty();
+    out.trace_hash = tr.finish();
+    out.signature = tr.finish();
+    out.state_fp = tr.finish();
+    out.sim_ms = 1_500 + 700 * levels.len() as u64;
+    out
+}
+
 impl Check for C15 {
     fn id(&self) -> &'static str {
         "C15"
@@ -264,6 +349,16 @@ impl Check for C15 {
         }
     }
     fn generate(&self, seed: u64, idx: u64, _tier: Tier) -> Value {
+        // real-node arm: one node built with DatacakeNodeBuilder::connect on a simulated host whose
+        // listen address differs from the address it advertises (0.0.0.0 vs the host's address)
+        let idx = match arm_split(idx, 1999) {
+            Ok(ordinal) => {
+                let mut rng = rng_from(case_seed(seed ^ 0xA15, ordinal));
+                let levels: Vec<String> = (0..rng.gen_range(3..=10)).map(|_| LEVELS[rng.gen_range(0..8)].to_string()).collect();
+                return serde_json::json!({ "real_node": { "listen_unspecified": rng.gen_bool(0.8), "dc": format!("dc{}", rng.gen_range(0..3)), "levels": levels, "net_seed": rng.gen::<u64>() } });
+            },
+            Err(main) => main,
+        };
         let e = enum_cases();
         if (idx as usize) < e.len() {
             return serde_json::to_value(&e[idx as usize]).unwrap();
@@ -284,7 +379,13 @@ impl Check for C15 {
         }
         serde_json::to_value(Scenario { local_dc, local_pos, initial, events, rng_seed: rng.gen() }).unwrap()
     }
+    fn isolate(&self, scenario: &Value) -> bool {
+        scenario.get("real_node").is_some()
+    }
     fn execute(&self, scenario: &Value) -> Outcome {
+        if let Some(r) = scenario.get("real_node") {
+            return execute_real_node(r);
+        }
         let sc: Scenario = match serde_json::from_value(scenario.clone()) {
             Ok(s) => s,
             Err(e) => return Outcome::invalid(format!("bad scenario: {e}")),
